@@ -38,7 +38,7 @@ LEAN_TY = {"Nat": "Nat", "Int": "Int", "Bool": "Bool", "OptNat": "Option Nat", "
            "NatList": "List Nat", "CharList": "List Char", "YMD": "PM.YMD", "NatPair": "Nat × Nat",
            "NatOptPair": "Nat × Option Nat", "OptPair": "Option (Nat × Nat)", "Unit": "Unit",
            "TokPair": "PM.Token × PM.Token", "NumRet": "Nat × PM.Ymd × PM.Res",
-           "StepRet": "List PM.Token × Nat × PM.Res × PM.Ymd × List Nat", "OptFloat": "Option Unit", "IntStr": "Int", "DecimalV": "PPy.DecimalV", "FoldDt": "PPy.FoldDt"}
+           "StepRet": "List PM.Token × Nat × PM.Res × PM.Ymd × List Nat", "OptFloat": "Option Unit", "IntStr": "Int", "DT": "DT", "Repl": "PPy.Repl", "DecimalV": "PPy.DecimalV", "FoldDt": "PPy.FoldDt"}
 PAIR_TYPES = {"NatPair": ("Nat", "Nat"), "NatOptPair": ("Nat", "OptNat"), "TokPair": ("Tok", "Tok")}
 # (methods of `parser` that are themselves translated: PARSER_METHODS below)
 
@@ -54,7 +54,9 @@ RES_FIELDS = {"year": ("year", "OptNat"), "month": ("month", "OptNat"), "day": (
               "second": ("second", "OptNat"), "microsecond": ("microsecond", "OptNat"), "tzname": ("tzname", "OptTok"),
               "tzoffset": ("tzoffset", "OptInt"), "ampm": ("ampm", "OptNat"),
               "century_specified": ("centurySpecified", "Bool")}
-RESERVED = {"end", "from", "at", "fun", "do", "then", "else", "if", "open", "in", "let", "have", "show", "by", "match", "out"}
+REPL_KEYS = ["year", "month", "day", "hour", "minute", "second", "microsecond"]
+DT_FIELDS = {"year": "y", "month": "m", "day": "d", "hour": "hh", "minute": "mm", "second": "ss", "microsecond": "us"}
+RESERVED = {"default", "end", "from", "at", "fun", "do", "then", "else", "if", "open", "in", "let", "have", "show", "by", "match", "out"}
 
 
 def lty(t):
@@ -186,6 +188,23 @@ class Tr:
             return self.subscript(e, pre)
         if isinstance(e, ast.Call):
             return self.call(e, pre)
+        if isinstance(e, ast.Dict) and not e.keys:
+            return "({} : PPy.Repl)", "Repl"
+        if isinstance(e, ast.IfExp):
+            c = self.C(e.test, pre)
+            pa, pb = [], []
+            a, ta = self.E(e.body, pa); b, tb = self.E(e.orelse, pb)
+            if isinstance(c, bool):
+                pre.extend(pa if c else pb)
+                return (a, ta) if c else (b, tb)
+            ty = ta if ta == tb else ("Int" if {ta, tb} <= {"Int", "Nat", "OptNat"} else None)
+            if ty is None: raise Untranslatable("conditional expression of %s and %s" % (ta, tb))
+            a = self.coerce(a, ta, ty, pa); b = self.coerce(b, tb, ty, pb)
+            if not pa and not pb:
+                return "(if %s then %s else %s)" % (c, a, b), ty
+            x = self.fresh("c")                                      # a branch can raise: evaluated only when taken
+            pre.append((x, "(if %s then\n%s\nelse\n%s)" % (c, self.wrap(pa, ".ok %s" % a), self.wrap(pb, ".ok %s" % b)), ty))
+            return x, ty
         if isinstance(e, ast.ListComp):
             return self.listcomp(e, pre)
         if isinstance(e, ast.DictComp):
@@ -237,6 +256,9 @@ class Tr:
             if e.attr not in INFO_FIELDS: raise Untranslatable("parserinfo.%s" % e.attr)
             f, t = INFO_FIELDS[e.attr]
             return "%s.%s" % (base, f), t
+        if bty == "DT":
+            if e.attr not in DT_FIELDS: raise Untranslatable("datetime.%s" % e.attr)
+            return "%s.%s" % (base, DT_FIELDS[e.attr]), "Int"
         if bty == "Res":
             if e.attr not in RES_FIELDS: raise Untranslatable("_result.%s" % e.attr)
             f, t = RES_FIELDS[e.attr]
@@ -249,6 +271,10 @@ class Tr:
         l, tl = self.E(e.left, pre)
         r, tr = self.E(e.right, pre)
         op = type(e.op)
+        if tl == "DT" and tr == "RdWd" and op is ast.Add:
+            x = self.fresh("dt")
+            pre.append((x, "PM.weekdayShift %s %s" % (l, r), "DT"))   # relativedelta(weekday=k) added to a datetime (C03's subject)
+            return x, "DT"
         if tl == "Dec" and op is ast.Mod and l and isinstance(e.right, ast.Constant) and e.right.value == 1:
             x = self.fresh("r")
             pre.append((x, "PM.Dec.rem1 %s" % l, "Dec"))          # `value % 1` in the Decimal context (InvalidOperation)
@@ -366,6 +392,10 @@ class Tr:
                 if ty in ("Tok", "IntStr"): return "true", "StaticBool"
                 if ty in ("Dec", "Nat", "Int"): return "false", "StaticBool"
                 raise Untranslatable("hasattr(%s, '__len__')" % ty)
+            if n == "getattr" and len(e.args) == 2:
+                a, ta = self.E(e.args[1], pre)
+                if ta != "Static" or not isinstance(a.v, str): raise Untranslatable("getattr with a dynamic name")
+                return self.attr(ast.Attribute(value=e.args[0], attr=a.v, ctx=ast.Load()), pre)
             if n == "str" and len(e.args) == 1:
                 t, ty = self.E(e.args[0], pre)
                 if ty not in ("Int", "Nat"): raise Untranslatable("str() of %s" % ty)
@@ -379,6 +409,10 @@ class Tr:
             if n == "range" and len(e.args) == 1 and isinstance(e.args[0], ast.Constant) and isinstance(e.args[0].value, int):
                 return "(List.range %d)" % e.args[0].value, "NatList"
             raise Untranslatable("call %s" % n)
+        if isinstance(f, ast.Attribute) and ast.unparse(f) == "relativedelta.relativedelta" and not e.args \
+                and len(e.keywords) == 1 and e.keywords[0].arg == "weekday":
+            a, ta = self.E(e.keywords[0].value, pre)
+            return self.coerce(a, ta, "Nat", pre), "RdWd"
         if isinstance(f, ast.Attribute):
             if isinstance(f.value, ast.Name) and f.value.id == "tz" and f.attr == "enfold" and len(e.args) == 1 \
                     and len(e.keywords) == 1 and e.keywords[0].arg == "fold":
@@ -392,6 +426,12 @@ class Tr:
                 return "(PM.isDigitTok cls %s)" % recv, "Bool"
             if rt == "Tok" and f.attr == "lower" and not e.args:
                 return "(PM.lower %s)" % recv, "Tok"
+            if rt == "DT" and f.attr == "replace" and not e.args and len(e.keywords) == 1 and e.keywords[0].arg is None:
+                d, td = self.E(e.keywords[0].value, pre)
+                if td != "Repl": raise Untranslatable("replace(**%s)" % td)
+                x = self.fresh("dt")
+                pre.append((x, "PM.dtReplace %s %s" % (recv, " ".join("%s.%s" % (d, k) for k in REPL_KEYS)), "DT"))
+                return x, "DT"
             if rt == "Tok" and f.attr == "find" and len(e.args) == 1:
                 a, ta = self.E(e.args[0], pre)
                 return "(PPy.strFind %s %s)" % (recv, self.char_of(a, ta)), "Int"
@@ -638,6 +678,9 @@ class Tr:
                 c = "(" + " ∨ ".join(alts) + ")"
                 return ("(¬ %s)" % c if neg else c), ("[]", "Static")
             r, tr = self.E(right, pre)
+            if tr == "Repl" and tl == "Static" and l.v in REPL_KEYS:
+                c = "(%s.%s ≠ none)" % (r, l.v)
+                return ("(¬ %s)" % c if neg else c), (r, tr)
             if tr == "Tok" and tl == "Static" and isinstance(l.v, str) and len(l.v) == 1:
                 c = "(%s.contains '%s' = true)" % (r, l.v)
                 return ("(¬ %s)" % c if neg else c), (r, tr)
@@ -723,6 +766,8 @@ class Tr:
                 add(self.mutating_call(s.value)[0])
             elif isinstance(s, ast.Try):
                 for n in self.assigned(s.body) + [m for h in s.handlers for m in self.assigned(h.body)]: add(n)
+            elif isinstance(s, ast.For):
+                for n in self.assigned(s.body): add(n)
         return out
 
     def mutating_call(self, v):
@@ -874,6 +919,22 @@ class Tr:
             if ty == "StaticBool": ty = "Bool"
             t = self.coerce(t, ty, self.spec.ret, pre)
             return self.wrap(pre, ".ok %s" % t)
+        if isinstance(s, ast.For):
+            if s.orelse or not isinstance(s.target, ast.Name) or not isinstance(s.iter, (ast.Tuple, ast.List)) \
+                    or not all(isinstance(x, ast.Constant) for x in s.iter.elts) or self.has(s.body, (ast.Break, ast.Continue, ast.Return)):
+                raise Untranslatable("for loop that is not over a literal tuple of constants")
+            items = [x.value for x in s.iter.elts]
+            var = s.target.id
+            after_live = self.live_in(rest, live_out) | self.reads(s.body)
+
+            def iteration(j):
+                if j == len(items):
+                    self.static.pop(var, None)
+                    return nxt()
+                self.static[var] = items[j]
+                self.types.pop(var, None)
+                return self.B(s.body, lambda: iteration(j + 1), after_live)
+            return iteration(0)
         if isinstance(s, ast.Try):
             return self.try_(s, rest, k, live_out)
         if isinstance(s, ast.If):
@@ -1017,6 +1078,11 @@ class Tr:
             if ty == "Static" and fty == "OptTok": t, ty = "(PM.tk \"%s\")" % t.v, "Tok"
             t = self.coerce(t, ty, fty, pre)
             return self.wrap(pre, "let %s := { %s with %s := %s }\n%s" % (obj, obj, f, t, nxt()))
+        if isinstance(target, ast.Subscript) and isinstance(target.value, ast.Name) and self.types.get(target.value.id) == "Repl":
+            d = target.value.id
+            kx, tk = self.E(target.slice, pre)
+            if tk != "Static" or kx.v not in REPL_KEYS: raise Untranslatable("dict key")
+            return self.wrap(pre, "let %s := { %s with %s := some %s }\n%s" % (d, d, kx.v, self.coerce(t, ty, "Nat", pre), nxt()))
         if isinstance(target, ast.Subscript) and isinstance(target.value, ast.Name) and self.types.get(target.value.id) == "Toks":
             d = target.value.id
             ix, ti = self.E(target.slice, pre)
@@ -1193,6 +1259,7 @@ PARSER_SPECS = [
         "OptNat", self_type="Parser", locals_={"hms_idx": "OptNat"}),
     PFn("parser._parse_hms", "parseHms", [("idx", "Nat"), ("tokens", "Toks"), ("info", "Info"), ("hms_idx", "OptNat")],
         "NatOptPair", self_type="Parser", locals_={"hms": "OptNat", "new_idx": "Nat"}),
+    PFn("parser._build_naive", "buildNaive", [("res", "Res"), ("default", "DT")], "DT", self_type="Parser"),
     PFn("parser._assign_tzname", "assignTzname", [("dt", "FoldDt"), ("tzname", "OptTok")], "FoldDt", self_type="Parser"),
     # ---- _ymd
     PFn("_ymd.could_be_day", "ymd_couldBeDay", [("value", "Dec")], "Bool", self_type="Ymd", inlines=YMD_PROPS),
